@@ -18,6 +18,11 @@ THEOREMS = [
     'AbacusVerif.Pipe.emit_validation_complete',
     'AbacusVerif.Pipe.parse_emit',
     'AbacusVerif.Pipe.parse_unambiguous',
+    'AbacusVerif.Pipe.emit_no_files',
+    'AbacusVerif.Pipe.emit_zero_dim',
+    'AbacusVerif.Pipe.cli_run',
+    'AbacusVerif.Pipe.cli_error_writes_nothing',
+    'AbacusVerif.Pipe.parseArgv_canonical',
 ]
 DRIVER = 'drv_c20'
 RULE = ('a case is one call unpack_to_pipe(files, fields, pipe) on freshly written synthetic ASDF files: 1-4 files '
@@ -134,7 +139,7 @@ def model_line(case):
             cols = []
             for c in f:
                 d = np.dtype([tuple(x) for x in c['dtype']] if isinstance(c['dtype'], list) else c['dtype'])
-                shape = 'x'.join(str(s) for s in c['shape'])
+                shape = 'x'.join(str(s) for s in c['shape']) if c['shape'] else 's'
                 cols.append('%s:%s:%d:%s' % (c['name'], shape, d.itemsize, c['hex'] or '-'))
             toks.append('+' + ';'.join(cols))
     toks.extend(case['fields'])
@@ -168,6 +173,8 @@ def run_impl(case, paths):
         err = 'tty' if 'terminal' in str(e) else 'RuntimeError:' + str(e)[:80]
     except UnboundLocalError:
         err = 'unbound-width'
+    except IndexError as e:
+        err = 'index-error' if '0-dimensional' in str(e) else 'IndexError:' + str(e)[:80]
     except Exception as e:   # noqa: BLE001
         err = type(e).__name__ + ':' + str(e)[:80]
     finally:
@@ -186,6 +193,8 @@ def spec(case):
     out = b''
     for fld in case['fields']:
         arrs = [t[fld] for t in trees]
+        if not arrs:
+            return out, 'no-files'
         count = sum(int(np.prod(a.shape, dtype=np.int64)) for a in arrs)
         width = arrs[-1].dtype.itemsize
         out += struct.pack('<q', count) + struct.pack('<i', width)
@@ -239,8 +248,14 @@ def check_case(ctx, case, paths, mres):
     ctx.count('files=%d' % len(case['files']))
     ctx.count('fields=%d' % len(case['fields']))
     ctx.count('compression:' + case['compression'])
-    ctx.count('outcome:' + (experr or ('tty' if case.get('tty') else 'ok')))
-    wellformed = uniform_width(case) and not case.get('tty') and len(case['files']) > 0
+    ctx.count('outcome:' + (experr or ('tty' if case.get('tty') else 'ok')) if case['files'] else 'outcome:no-files')
+    zero_d = any(f not in ('missing', 'directory') and any(not c['shape'] for c in f if c['name'] in case['fields'])
+                 for f in case['files'])
+    wellformed = uniform_width(case) and not case.get('tty') and len(case['files']) > 0 and not zero_d
+    if zero_d:
+        ctx.count('0-d column (model-vs-impl only)')
+    if not case['files']:
+        ctx.count('no input file (model-vs-impl only)')
     if not uniform_width(case):
         ctx.count('mixed-widths(model-vs-impl only)')
     # ---- oracle
@@ -328,6 +343,18 @@ def gen_case(rng, kind):
                 c.update(gen_column(rng, victim))
     elif kind == 'tty':
         case['tty'] = True
+    elif kind == 'zero-d':
+        # the victim field becomes a 0-d array in one or more files (outside the property; model vs code)
+        victim = case['fields'][int(rng.integers(0, len(case['fields'])))]
+        ks = set(int(x) for x in rng.integers(0, nfiles, int(rng.integers(1, 3))))
+        for k in ks:
+            for c in case['files'][k]:
+                if c['name'] == victim:
+                    d = np.dtype([tuple(x) for x in c['dtype']] if isinstance(c['dtype'], list) else c['dtype'])
+                    c['shape'] = []
+                    c['hex'] = bytes(rng.integers(0, 256, d.itemsize, dtype=np.uint8)).hex()
+    elif kind == 'no-files':
+        case['files'] = []
     return case
 
 
@@ -348,38 +375,81 @@ def run_cases(ctx, cases, k0=0):
         check_case(ctx, c, paths, mres)
 
 
+def fs_entry(name, cols):
+    toks = []
+    for c in cols:
+        d = np.dtype([tuple(x) for x in c['dtype']] if isinstance(c['dtype'], list) else c['dtype'])
+        shape = 'x'.join(str(x) for x in c['shape']) if c['shape'] else 's'
+        toks.append('%s:%s:%d:%s' % (c['name'], shape, d.itemsize, c['hex'] or '-'))
+    return '%s=+%s' % (name, ';'.join(toks))
+
+
+def cli_argv(rng, fields, files, style):
+    """argv for `pipe_asdf` in one of the spellings argparse accepts (or deliberately does not)"""
+    def f_opt(f):
+        form = int(rng.integers(0, 5)) if style != 'plain' else 0
+        return [['-f', f], ['-f' + f], ['--field', f], ['--field=' + f], ['--fie', f]][form]
+
+    fopts = [t for f in fields for t in f_opt(f)]
+    nth = [[], ['--nthread', '2'], ['--nthread=1']][int(rng.integers(0, 3))] if style != 'plain' else []
+    if style in ('plain', 'spellings'):
+        return fopts + nth + files if rng.random() < 0.5 else nth + files + fopts
+    if style == 'dashdash':
+        return nth + fopts + ['--'] + files
+    if style == 'split-positionals':          # usage error: two groups of positionals
+        return files[:1] + fopts + files[1:] + (files[:1] if len(files) == 1 else [])
+    if style == 'bad-nthread':
+        return fopts + ['--nthread', 'x'] + files
+    if style == 'no-field':                   # fields=None -> TypeError before any write
+        return nth + files
+    raise AssertionError(style)
+
+
 def run_cli(ctx):
-    """the console entry point (`pipe_asdf` = python -m abacusnbody.data.pipe_asdf), stdout captured"""
+    """the console entry point (`pipe_asdf` = python -m abacusnbody.data.pipe_asdf): argv handling of `main`
+    and the bytes on stdout / the exit status, against the model's `cli`"""
     import vcommon
     rng = ctx.rng
-    for kind in ('ok', 'missing-field'):
+    plan = [('ok', 'plain', 'blsc'), ('ok', 'spellings', 'none'), ('ok', 'dashdash', 'none'),
+            ('missing-field', 'spellings', 'none'), ('missing-file', 'plain', 'none'),
+            ('ok', ['split-positionals', 'bad-nthread', 'no-field'][int(rng.integers(0, 3))], 'none')]
+    if not ctx.quick:
+        plan += [('ok', 'split-positionals', 'none'), ('ok', 'bad-nthread', 'none'), ('ok', 'no-field', 'none'),
+                 ('zero-d', 'plain', 'none'), ('ok', 'spellings', 'blsc'), ('mixed-width', 'spellings', 'none')]
+    for k, (kind, style, comp) in enumerate(plan):
         case = gen_case(rng, kind)
-        case['compression'] = 'blsc' if kind == 'ok' else 'none'
-        paths = materialise(ctx, case, 900000 + (0 if kind == 'ok' else 1))
-        cmd = [vcommon.PY, '-B', '-m', 'abacusnbody.data.pipe_asdf']
-        for f in case['fields']:
-            cmd += ['-f', f]
-        cmd += paths
+        case['compression'] = comp
+        paths = materialise(ctx, case, 900000 + k)
+        names = [os.path.basename(p) for p in paths]
+        argv = cli_argv(rng, case['fields'], names, style)
+        case = dict(case, cli=True, argv=argv, style=style)
+        cmd = [vcommon.PY, '-B', '-m', 'abacusnbody.data.pipe_asdf'] + argv
         p = subprocess.run(cmd, env=vcommon.impl_env(), stdout=subprocess.PIPE, stderr=subprocess.PIPE, timeout=600,
-                           cwd=ctx.tmpdir())
+                           cwd=os.path.dirname(paths[0]))
+        fs = [fs_entry(nm, f) for nm, f in zip(names, case['files']) if f not in ('missing', 'directory')]
+        mline = 'cli 0 %s @@ %s' % (' '.join(fs), ' '.join(argv))
+        mres = dict(t.split('=', 1) for t in ctx.driver.query([mline])[0].split(' '))
+        ctx.case(case, nontrivial=True)
+        ctx.count('cli:%s/%s' % (kind, style))
+        obs = {'stdout': p.stdout.hex() or '-', 'exit': str(p.returncode)}
+        if obs != {'stdout': mres.get('stdout'), 'exit': mres.get('exit')}:
+            ctx.disagree('pipe_asdf command line: stdout bytes / exit status', case, mres,
+                         dict(obs, stderr=p.stderr.decode(errors='replace')[-300:]))
+        # oracle: the property on the command line, when the invocation is a valid one
         exp, experr = spec(case)
-        mres = parse_model(ctx.driver.query([model_line(case)])[0])
-        ctx.case(dict(case, cli=True), nontrivial=True)
-        ctx.count('cli:' + kind)
-        obs = {'stdout': p.stdout.hex(), 'rc_zero': p.returncode == 0}
-        if obs['stdout'] != mres['written'] or obs['rc_zero'] != (mres['err'] == 'none'):
-            ctx.disagree('pipe_asdf command line output', case, {'stdout': mres['written'][:200], 'err': mres['err']},
-                         {'stdout': obs['stdout'][:200], 'rc': p.returncode, 'stderr': p.stderr.decode(errors='replace')[-300:]})
-        if experr is None:
+        valid_argv = style in ('plain', 'spellings', 'dashdash')
+        if valid_argv and kind in ('ok',):
             if p.returncode != 0 or p.stdout != exp:
                 ctx.fail('pipe_asdf command line: stream is not count, width, raw bytes per field', case,
                          {'stdout': obs['stdout'][:120], 'rc': p.returncode, 'stderr': p.stderr.decode(errors='replace')[-300:]},
                          {'stdout': exp.hex()[:120], 'rc': 0}, key='pipe:cli-framing')
-        else:
+        elif (valid_argv and kind in ('missing-field', 'missing-file')) or style in ('split-positionals', 'bad-nthread', 'no-field'):
             if p.returncode == 0 or p.stdout != b'':
                 ctx.fail('pipe_asdf command line: error not reported before any byte is written', case,
                          {'stdout': obs['stdout'][:120], 'rc': p.returncode}, {'stdout': '', 'rc': 'non-zero'},
                          key='pipe:cli-error-writes')
+        if len(ctx.failures) >= MAX_REPORTS:
+            raise Enough()
 
 
 def run(ctx):
@@ -390,9 +460,11 @@ def run(ctx):
         ctx.count('corpus', len(corpus))
         run_cases(ctx, corpus, 800000)
         n = ctx.pick(120, 900)
-        kinds = ['ok'] * 6 + ['missing-file', 'missing-field', 'missing-field', 'mixed-width']
+        kinds = ['ok'] * 6 + ['missing-file', 'missing-field', 'missing-field', 'mixed-width', 'zero-d']
         cases = [gen_case(rng, kinds[i % len(kinds)]) for i in range(n)]
         cases.append(gen_case(rng, 'tty'))
+        cases.append(gen_case(rng, 'no-files'))
+        cases.append(gen_case(rng, 'no-files'))
         # boundary: everything empty; one file one field; the same field requested twice; 4 files x 4 fields
         cases.append({'kind': 'boundary', 'files': [[gen_column(rng, 'pos', '<f4', 0, 3)]], 'fields': ['pos'],
                       'compression': 'none', 'tty': False})
@@ -425,7 +497,8 @@ def intensify(ctx):
 def replay(ctx, doc):
     from abacusnbody.data import pipe_asdf  # noqa: F401
     c = doc['failure']['case'] if 'failure' in doc else doc
-    c.pop('cli', None)
+    for k in ('cli', 'argv', 'style'):
+        c.pop(k, None)
     try:
         run_cases(ctx, [c], 600000)
     except Enough:
